@@ -1026,19 +1026,10 @@ func (d *Driver) judgeC06() {
 					if st.TRet > t0 {
 						t0 = st.TRet
 					}
-					// watch established (first watch_started log of this object after the start)
-					var wOK time.Duration = -1
-					for _, l := range d.h.Logs {
-						if l.Inst == st.Inst && l.Gen == st.Gen && l.Msg == "watch_started" && l.T >= st.TInv {
-							wOK = l.T
-							break
-						}
-					}
-					if wOK < 0 {
-						continue // never became a watching follower (e.g. it was the leader all along)
-					}
-					if wOK > t0 {
-						t0 = wOK
+					// a started instance whose first attempt lost is a follower (watching, checking every
+					// 500 ms) once that attempt has returned: at most a Create and a takeover read later
+					if t1 := st.TRet + 2*lam + d.stallIn(in.idx, st.TRet, st.TRet+2*lam+time.Second); t1 > t0 {
+						t0 = t1
 					}
 					// not claiming: a deposed leader becomes a candidate at its falling edge
 					claiming := false
